@@ -24,6 +24,15 @@ package permutation
 //@ ghost eta = 0
 //@ ghost batchok = false
 //@ ghost shiftok = false
+//@ ghost bind1 = false
+//@ ghost bind2 = false
+//@ ghost bind3 = false
+//@ cut before call deriveRandomness #1
+//@ + ghost bind1 = len(callarg2) == 2 && same(callarg2[0], &proof.t1) && same(callarg2[1], &proof.t2)
+//@ cut before call deriveRandomness #2
+//@ + ghost bind2 = len(callarg2) == 1 && same(callarg2[0], &proof.z)
+//@ cut before call deriveRandomness #3
+//@ + ghost bind3 = len(callarg2) == 1 && same(callarg2[0], &proof.q)
 //@ cut after call deriveRandomness #1
 //@ + ghost eps = callresult0
 //@ cut after call deriveRandomness #2
@@ -44,6 +53,7 @@ package permutation
 //@ ghost-final half = rexp(proof.g, proof.size / 2)
 //@ ensures[relation] isnil(result) ==> iszero((eps - v1)*sh - (eps - v0)*v2 + (v2 - 1)*l0*omega - zn*v3)
 //@ ensures[openings] isnil(result) ==> batchok && shiftok
+//@ ensures[challenges-bind-the-commitments] isnil(result) ==> bind1 && bind2 && bind3
 //@ ensures[generator] isnil(result) ==> !iszero(half - 1) && iszero(half*half - 1)
 //@ modifies nothing
 //@ end
